@@ -217,10 +217,27 @@ def extract_fn(item, opts, blocks, rewrites_log, as_stub=False):
                 edits.append((tk(q)[2], tk(q)[3], R('8', 'Self', opts['selfty'])))
         rewrites_log.append({'rule': 'R8', 'fn': item.name, 'before': 'Self', 'after': opts['selfty']})
 
+    # user rewrites are located first: automatic rewrites inside their spans are suppressed
+    user_spans = []
+    for rw in blocks.get('_rewrites', []):
+        frm, to, which = rw
+        occ = find_code_occurrences(text, toks, ci, bodyp, bodye, frm)
+        if not occ:
+            raise GenErr('%s: rewrite anchor %r not found' % (item.name, frm))
+        sel = occ if which == 'all' else [occ[which - 1]] if which <= len(occ) else None
+        if sel is None:
+            raise GenErr('%s: rewrite anchor %r occurrence %s not found' % (item.name, frm, which))
+        for (s0, e0) in sel:
+            user_spans.append((s0, e0, frm, to))
+    def in_user(pos):
+        return any(a <= pos < b for (a, b, _, _) in user_spans)
+
     # ---- body rewrites (R3 / R9) ----
     p = bodyp + 1
     while p < bodye:
         x = tk(p)
+        if in_user(x[2]):
+            p += 1; continue
         if x[0] == 'id' and p + 2 < bodye and tk(p + 1)[1] == '!' and tk(p + 2)[1] in OPEN and tk(p + 1)[2] == x[3]:
             mname = x[1]
             ob = p + 2; cb = match_close(toks, ci, ob)
@@ -256,18 +273,10 @@ def extract_fn(item, opts, blocks, rewrites_log, as_stub=False):
             p = cb + 1; continue
         p += 1
 
-    # ---- user rewrites: //@ rewrite "<literal>" => "<literal>"  (each recorded as RU, must match exactly once unless n given)
-    for rw in blocks.get('_rewrites', []):
-        frm, to, which = rw
-        occ = find_code_occurrences(text, toks, ci, bodyp, bodye, frm)
-        if not occ:
-            raise GenErr('%s: rewrite anchor %r not found' % (item.name, frm))
-        sel = occ if which == 'all' else [occ[which - 1]] if which <= len(occ) else None
-        if sel is None:
-            raise GenErr('%s: rewrite anchor %r occurrence %s not found' % (item.name, frm, which))
-        for (s0, e0) in sel:
-            edits.append((s0, e0, R('U', text[s0:e0], to)))
-            rewrites_log.append({'rule': 'RU', 'fn': item.name, 'before': frm, 'after': to})
+    # ---- user rewrites: //@ rewrite "<literal>" => "<literal>"  (each recorded as RU)
+    for (s0, e0, frm, to) in user_spans:
+        edits.append((s0, e0, R('U', text[s0:e0], to)))
+        rewrites_log.append({'rule': 'RU', 'fn': item.name, 'before': frm, 'after': to})
 
     # ---- ghost splices ----
     start = blocks.get('start', '')
